@@ -1,5 +1,5 @@
 """Contracts for paranoid_crypto/lib/ec_util.py (C02, C06, C09, C10, C11, C18)."""
-from pyvc.contracts import contract, macro
+from pyvc.contracts import contract, macro, spec_axiom
 
 E = "paranoid_crypto/lib/ec_util.py"
 CURVE_FIELDS = {"a": "int", "b": "int", "mod": "int", "n": "int", "h": "int", "g": "tuple[int,int]"}
@@ -256,52 +256,216 @@ class PointTable:
   props = ["C10", "C11", "C17"]
 
 
+# The discrete-log view of the group <G> (specification theory, no statement about code): dlog / in_group are
+# uninterpreted; the generator has logarithm 1, and the point with the negated y-coordinate (any representative) is the
+# inverse.  Code is tied to this view only through Multiply's (assumed, C11) contract.
+LOG_AXIOMS = ["in_group(self, self.g[0], self.g[1]) and dlog(self, self.g[0], self.g[1]) == 1"]
+
+
+@spec_axiom("log_neg")
+class LogNeg:
+  """(x, y') with y + y' == 0 (mod p) is the inverse of (x, y): same subgroup, negated logarithm."""
+  vars = {"ca": "int", "cb": "int", "cm": "int", "gx": "int", "gy": "int", "cn": "int", "ax": "int", "ay": "int",
+          "by": "int"}
+  hyps = ["ufb('in_group', ca, cb, cm, gx, gy, cn, ax, ay)", "(ay + by) % cm == 0"]
+  concl = ["ufb('in_group', ca, cb, cm, gx, gy, cn, ax, by)",
+           "(ufi('dlog', ca, cb, cm, gx, gy, cn, ax, ay) + ufi('dlog', ca, cb, cm, gx, gy, cn, ax, by)) % cn == 0"]
+
+
+macro("log_neg", ["c", "ax", "ay", "by"], "lemma('log_neg', c.a, c.b, c.mod, c.g[0], c.g[1], c.n, ax, ay, by)")
+_SOUND = ("(implies(points[k][0] is None, res[k] is None or res[k] == 0) and implies(points[k][0] is not None, "
+          "res[k] is None or implies(in_group(self, points[k][0], points[k][1]), "
+          "is_dlog(self, res[k], points[k][0], points[k][1]))))")
+
+
 @contract(f"{E}::EcCurve.BatchDL")
 class BatchDL:
-  """The search loop (baby-step table lookups, candidate verification by Multiply) is decided by the bounded tier;
-  what IS discharged here for all n and all list lengths is the search space: the giant steps j*t, j < giant_steps,
-  together with the baby-step window |delta| < table_size cover every x in [0, n), the table cached on the curve is at
-  least as large as the window, and one result slot exists per point."""
+  """Discharged for all n, all list lengths and all curves: (1) the search SPACE - the giant steps j*t, j < giant_steps,
+  together with the baby-step window |delta| < table_size reach every x in [0, n), and the table cached on the curve is at
+  least as large as the window; (2) SOUNDNESS of the search loop over the logarithm view - a value is stored only after
+  Multiply(G, dl) has been compared with the target, so every returned value is a discrete logarithm of its own
+  point (0 for the point at infinity).  Completeness of the baby-step lookups (keys of the table are the right
+  x-coordinates) is group arithmetic: bounded tier."""
   params = {"points": "list[point]", "n": "int"}
-  self_fields = dict(CURVE_FIELDS, _table="ref:XTable", _table_size="int")
+  self_fields = dict(CURVE_FIELDS, _table="dict[int,int]", _table_size="int")
   returns = "list[Optional[int]]"
-  requires = CURVE_REQ + ["n >= 1", "len(points) >= 1", "self._table_size >= 0"]
-  raises = {"ArithmeticError": None}    # BatchInverse's internal self-check (reached through PointTable)
-  ensures = [("C10", "len(result) == len(points)")]
-  caller_ensures = ["len(result) == len(points)",
-                    "forall(k, 0, len(result), result[k] is None or points[k][0] is None or "
-                    "implies(in_group(self, points[k][0], points[k][1]), is_dlog(self, result[k], points[k][0], points[k][1])))"]
-  # the candidate verification by Multiply inside the abstracted search loop: decided by bounded/c10.py
-  caller_assumed = ["forall(k, 0, len(result), result[k] is None or points[k][0] is None or "
-                    "implies(in_group(self, points[k][0], points[k][1]), is_dlog(self, result[k], points[k][0], points[k][1])))"]
+  requires = CURVE_REQ + ["n >= 1", "self._table_size >= 0", "forall(k, 0, len(points), wf_point(points[k]))",
+                          "wf_point(self.g) and self.g[0] is not None"]
+  spec_axioms = LOG_AXIOMS
+  raises = {"ArithmeticError": None}    # BatchInverse's internal self-check (reached through PointTable / BatchAddX)
+  ensures = [("C10", "len(result) == len(points)"),
+             ("C02,C10", "forall(k, 0, len(result), implies(points[k][0] is None, result[k] is None or result[k] == 0) and "
+                         "implies(points[k][0] is not None, result[k] is None or "
+                         "implies(in_group(self, points[k][0], points[k][1]), "
+                         "is_dlog(self, result[k], points[k][0], points[k][1]))))")]
   on_call = {f"{E}::EcCurve.PointSequence": [
-      "assert [C10] table_size >= 1 and t == 2 * table_size - 1",
-      # every x in [0, n) is within the baby-step window of some giant step
+      "assert [C10] implies(len(points) >= 1, table_size >= 1) and t == 2 * table_size - 1",
       # every x in [0, n) lies within the baby-step window of a giant step; explicit witness j = (x + table_size - 1) // t
-      "check [C10] forall(x, 0, n, divmod_def(x + table_size - 1, t) and 0 <= idiv(x + table_size - 1, t) and "
+      "check [C10] implies(len(points) >= 1, forall(x, 0, n, divmod_def(x + table_size - 1, t) and "
+      "0 <= idiv(x + table_size - 1, t) and "
       "idiv(x + table_size - 1, t) < args[1] and 0 - table_size < x - idiv(x + table_size - 1, t) * t and "
-      "x - idiv(x + table_size - 1, t) * t < table_size)",
-      "assert [C10] self._table_size >= table_size"]}
-  loops = {0: dict(abstract=True, types={"res": "list[Optional[int]]"})}
+      "x - idiv(x + table_size - 1, t) * t < table_size))",
+      "assert [C10] self._table_size >= table_size"],
+             # candidate verification: y = Multiply(G, dl); whichever comparison with the target p succeeds afterwards,
+             # the value stored is a logarithm of p
+             f"{E}::EcCurve.Multiply": [
+      "begin_scope",
+      "let ON = defined('res') and ret[0] is not None and p[0] is not None",
+      "let DLY = (dlog(self, ret[0], ret[1]) if ON else 0)",
+      "let DLP = (dlog(self, p[0], p[1]) if ON else 0)",
+      "let DLN = (dlog(self, ret[0], p[1]) if ON else 0)",
+      "let dl_ = args[1]",
+      # Multiply's log view with dlog(G) == 1: dlog(y) == dl (mod n), in either orientation
+      "assert [C02,C10] implies(ON, (DLY - dl_) % self.n == 0)",
+      "implies(ON, lemma('cong_lin', DLY - dl_, 0, 0 - 1, 0, self.n))",
+      "assert [C02,C10] implies(ON, by((dl_ - DLY) % self.n == 0, ((0 - 1) * (DLY - dl_) + 0 * 0) % self.n == 0))",
+      # case y == p
+      "assert [C02,C10] implies(ON and ret[0] == p[0] and ret[1] == p[1], is_dlog(self, dl_, p[0], p[1]))",
+      # case y == -p: ret[1] == (-p[1]) % mod  ==>  (ret[1] + p[1]) % mod == 0  ==>  dlog(p) == -dlog(y)
+      "implies(ON, divmod_def(0 - p[1], self.mod) and euclid(ret[1], self.mod, ret[1], 0) and "
+      "lemma('mod_eq_iff', ret[1], 0 - p[1], self.mod))",
+      "assert [C02,C10] implies(ON and ret[1] == (0 - p[1]) % self.mod, by((ret[1] + p[1]) % self.mod == 0, "
+      "ret[1] % self.mod == (0 - p[1]) % self.mod, "
+      "(ret[1] % self.mod == (0 - p[1]) % self.mod) == ((ret[1] - (0 - p[1])) % self.mod == 0)))",
+      "implies(ON, log_neg(self, ret[0], ret[1], p[1]))",
+      "assert [C02,C10] implies(ON and ret[0] == p[0] and (ret[1] + p[1]) % self.mod == 0, "
+      "in_group(self, ret[0], p[1]) and (DLY + DLN) % self.n == 0)",
+      "implies(ON and ret[0] == p[0] and (ret[1] + p[1]) % self.mod == 0, "
+      "lemma('cong_lin', DLY - dl_, DLY + DLN, 1, 0 - 1, self.n))",
+      "assert [C02,C10] implies(ON and ret[0] == p[0] and (ret[1] + p[1]) % self.mod == 0, "
+      "by((0 - dl_ - DLN) % self.n == 0, (1 * (DLY - dl_) + (0 - 1) * (DLY + DLN)) % self.n == 0))",
+      "assert [C02,C10] implies(ON and ret[0] == p[0] and ret[1] == (0 - p[1]) % self.mod, "
+      "is_dlog(self, 0 - dl_, p[0], p[1]))",
+      "end_scope"]}
+  INV = ["len(res) == len(points)", ("C02,C10", "forall(k, 0, len(points), %s)" % _SOUND)]
+  loops = {0: dict(invariant=INV, types={"res": "list[Optional[int]]"}),
+           1: dict(invariant=INV, types={"res": "list[Optional[int]]"},
+                   # the slot of the current point after this baby-step candidate: still sound
+                   body_end=[("C02,C10", "implies(p[0] is not None, res[i] is None or implies(in_group(self, p[0], p[1]), "
+                                         "is_dlog(self, res[i], p[0], p[1])))")])}
   var_types = {"res": "list[Optional[int]]"}
-  props = ["C10"]
+  feasibility = False
+  props = ["C02", "C10"]
+
+
+# relation between the transformed point T = all_points[t] and its source, t = i + num_points * j (flat index, written with
+# the code's own t // num_points and t % num_points): T = inverses[j] * points[i] in the logarithm view (this is Multiply's
+# contract, recorded per entry)
+def _rel(t):
+  jj, ii = f"fdiv({t}, num_points)", f"fmod({t}, num_points)"
+  T0, T1 = f"all_points[{t}][0]", f"all_points[{t}][1]"
+  L = f"dlog(self, points[{ii}][0], points[{ii}][1])"
+  return (f"(wf_point(all_points[{t}]) and implies(in_group(self, points[{ii}][0], points[{ii}][1]), "
+          f"(({T0} is None) == cmod0(inverses[{jj}] * {L}, self.n)) and "
+          f"implies({T0} is not None, in_group(self, {T0}, {T1}) and "
+          f"cmod0(dlog(self, {T0}, {T1}) - inverses[{jj}] * {L}, self.n))))")
+
+
+P3 = "C02,C10,C17"
+
+
+def _bdl(k):      # BatchDL's postcondition for slot k of (all_points, discrete_logs)
+  return (f"(implies(all_points[{k}][0] is None, discrete_logs[{k}] is None or discrete_logs[{k}] == 0) and "
+          f"implies(all_points[{k}][0] is not None, discrete_logs[{k}] is None or "
+          f"implies(in_group(self, all_points[{k}][0], all_points[{k}][1]), "
+          f"is_dlog(self, discrete_logs[{k}], all_points[{k}][0], all_points[{k}][1]))))")
+
+
+_XSOUND = ("(res[i2] is None or implies(in_group(self, points[i2][0], points[i2][1]), "
+           "is_dlog(self, res[i2], points[i2][0], points[i2][1])))")
 
 
 @contract(f"{E}::EcCurve.ExtendedBatchDL")
 class ExtendedBatchDL:
-  frame_props = ["C02", "C10", "C17"]
-  """Soundness over the logarithm view (d * m == x (mod n) when d == inv(m) * x) was attempted deductively; the
-  flat-index invariant over all_points (m // num_points, m % num_points, products of uninterpreted logs) is not
-  discharged by z3/cvc5 within budget, so the contract is ASSUMED here and decided by the bounded tier
-  (bounded/c02.py ec_key_checks_sound incl. negatives of structured keys, bounded/c10.py)."""
+  """Soundness for every curve, every list of finite points and ANY list of multipliers (the two loops that build the
+  multiplier list are abstracted: the argument does not depend on their values): the transformed point
+  all_points[i + num*j] is inverses[j] * points[i]; BatchDL returns a logarithm d of it; the value stored for point
+  i = k % num is d * multipliers[k // num], and inverses[j] * multipliers[j] == 1 (mod n), so it is a logarithm of
+  points[i] - in the logarithm view of the group (Multiply's assumed contract, C11).  WHICH logarithms are found
+  (completeness) is the bounded tier."""
   params = {"points": "list[tuple[int,int]]"}
-  self_fields = CURVE_FIELDS
+  self_fields = dict(CURVE_FIELDS, _table="dict[int,int]", _table_size="int")
   returns = "list[Optional[int]]"
-  assumed = True
-  assumed_why = ("multiplier/inverse bookkeeping over a flat index: invariant not discharged within budget; bounded tier "
-                 "bounded/c02.py, bounded/c10.py")
+  requires = CURVE_REQ + ["self._table_size >= 0", "wf_point(self.g) and self.g[0] is not None"]
+  spec_axioms = LOG_AXIOMS
+  raises = {"ArithmeticError": None}
   ensures = ["len(result) == len(points)",
-             "forall(k, 0, len(result), result[k] is None or is_dlog(self, result[k], points[k][0], points[k][1]))"]
+             ("C02,C10,C17", "forall(k, 0, len(result), result[k] is None or implies(in_group(self, points[k][0], points[k][1]), "
+                             "is_dlog(self, result[k], points[k][0], points[k][1])))")]
+  FILL = ["len(all_points) == len(multipliers) * num_points", "num_points == len(points)",
+          "len(inverses) == len(multipliers)",
+          "forall(t, 0, len(inverses), inverses[t] * multipliers[t] == 1 + self.n * invert_k(multipliers[t], self.n))"]
+  loops = {0: dict(abstract=True, types={"multipliers": "list[int]"}),
+           1: dict(abstract=True, types={"multipliers": "list[int]"}),
+           2: dict(invariant=FILL + [("C02,C10,C17", "forall(t, 0, num_points * j, %s)" % _rel("t"))],
+                   types={"all_points": "list[point]"}),
+           3: dict(invariant=FILL + [("C02,C10,C17", "forall(t, 0, num_points * j + i, %s)" % _rel("t"))],
+                   types={"all_points": "list[point]"}, keep={"j", "inverse"},
+                   body_end=[("C02,C10,C17", "begin_scope"),
+                             ("C02,C10,C17", "let t0 = _i3 + num_points * j"),
+                             ("C02,C10,C17", "euclid(t0, num_points, _i3, j) and flat_def(t0, num_points)"),
+                             ("C02,C10,C17", "fdiv(t0, num_points) == j and fmod(t0, num_points) == _i3 and inverse == inverses[j]"),
+                             ("C02,C10,C17", "cmod0_def(inverse * dlog(self, point[0], point[1]), self.n)"),
+                             ("C02,C10,C17", "implies(all_points[t0][0] is not None, cmod0_def(dlog(self, all_points[t0][0], "
+                                             "all_points[t0][1]) - inverse * dlog(self, point[0], point[1]), self.n))"),
+                             ("C02,C10,C17", _rel("t0")), ("C02,C10,C17", "end_scope")]),
+           4: dict(invariant=["len(res) == num_points", ("C02,C10,C17", "forall(i2, 0, num_points, %s)" % _XSOUND)],
+                   types={"res": "list[Optional[int]]"},
+                   body_end=[(P3, h) for h in [
+                       "begin_scope",
+                       "let k_ = _i4", "let jj = idiv(k_, num_points)", "let ii = k_ % num_points",
+                       "let d = discrete_logs[k_]", "let ON = d is not None",
+                       "divmod_def(k_, num_points) and flat_def(k_, num_points) and "
+                       "div_lt(k_, num_points, len(multipliers))",
+                       "implies(ON, by(0 <= ii and ii < num_points and 0 <= jj and jj < len(multipliers) and "
+                       "fdiv(k_, num_points) == jj and fmod(k_, num_points) == ii, "
+                       "k_ == num_points * idiv(k_, num_points) + k_ % num_points, 0 <= k_ % num_points, "
+                       "k_ % num_points < num_points, num_points >= 1, k_ >= 0, k_ < num_points * len(multipliers), "
+                       "idiv(k_, num_points) < len(multipliers), idiv(k_, num_points) >= 0, jj == idiv(k_, num_points), "
+                       "ii == k_ % num_points, fdiv(k_, num_points) == idiv(k_, num_points), "
+                       "fmod(k_, num_points) == k_ % num_points))",
+                       "let m_ = multipliers[jj] if ON else 1", "let inv_ = inverses[jj] if ON else 1",
+                       "let kk = invert_k(m_, self.n)",
+                       "let L = dlog(self, points[ii][0], points[ii][1]) if ON else 0",
+                       "let G_ = ON and in_group(self, points[ii][0], points[ii][1])",
+                       "implies(ON, by(inv_ * m_ == 1 + self.n * kk, forall(t, 0, len(inverses), inverses[t] * "
+                       "multipliers[t] == 1 + self.n * invert_k(multipliers[t], self.n)), 0 <= jj and jj < len(inverses), "
+                       "m_ == multipliers[jj], inv_ == inverses[jj], kk == invert_k(multipliers[jj], self.n)))",
+                       "implies(ON, res[ii] == d * m_)",
+                       # instances of the two quantified facts (fill relation, BatchDL's postcondition) at k_
+                       "implies(ON, by(%s, forall(t, 0, num_points * len(multipliers), %s), "
+                       "0 <= k_ and k_ < num_points * len(multipliers)))" % (_rel("k_"), _rel("t")),
+                       "implies(ON, by(%s, forall(k, 0, len(discrete_logs), %s), 0 <= k_ and k_ < len(discrete_logs)))"
+                       % (_bdl("k_"), _bdl("k")),
+                       "let T0 = all_points[k_][0] if ON else None", "let T1 = all_points[k_][1] if ON else None",
+                       "let DT = (dlog(self, T0, T1) if ON and T0 is not None else 0)",
+                       "implies(ON, cmod0_def(inv_ * L, self.n)) and implies(ON and T0 is not None, "
+                       "cmod0_def(DT - inv_ * L, self.n))",
+                       "euclid(self.n, self.n, 0, 1)",
+                       # transformed point at infinity: d == 0, and L == 0 (mod n) because inv * L == 0 and inv is a unit
+                       "implies(G_ and T0 is None, d == 0 and (inv_ * L) % self.n == 0)",
+                       "implies(G_ and T0 is None, lemma('cong_lin', inv_ * L, self.n, m_, 0 - kk * L, self.n))",
+                       "implies(G_ and T0 is None, by(L % self.n == 0, (m_ * (inv_ * L) + (0 - kk * L) * self.n) % self.n == 0, "
+                       "inv_ * m_ == 1 + self.n * kk))",
+                       "implies(G_ and T0 is None, lemma('cong_lin', L, 0, 0 - 1, 0, self.n))",
+                       "implies(G_ and T0 is None, by((res[ii] - L) % self.n == 0, ((0 - 1) * L + 0 * 0) % self.n == 0, "
+                       "res[ii] == d * m_, d == 0))",
+                       # finite transformed point: d == dlog(T), dlog(T) == inv * L, inv * m == 1 (all mod n)
+                       "implies(G_ and T0 is not None, in_group(self, T0, T1) and (DT - inv_ * L) % self.n == 0 and "
+                       "(d - DT) % self.n == 0)",
+                       "implies(G_ and T0 is not None, lemma('cong_lin', d - DT, DT - inv_ * L, m_, m_, self.n))",
+                       "implies(G_ and T0 is not None, lemma('cong_lin', m_ * (d - DT) + m_ * (DT - inv_ * L), self.n, 1, "
+                       "kk * L, self.n))",
+                       "implies(G_ and T0 is not None, by((res[ii] - L) % self.n == 0, "
+                       "(1 * (m_ * (d - DT) + m_ * (DT - inv_ * L)) + (kk * L) * self.n) % self.n == 0, "
+                       "inv_ * m_ == 1 + self.n * kk, res[ii] == d * m_))",
+                       "implies(ON, implies(in_group(self, points[ii][0], points[ii][1]), "
+                       "is_dlog(self, res[ii], points[ii][0], points[ii][1])))",
+                       "end_scope"]])}
+  var_types = {"res": "list[Optional[int]]", "all_points": "list[point]", "multipliers": "list[int]",
+               "inverses": "list[int]"}
+  feasibility = False
+  props = ["C02", "C10", "C17"]
 
 
 @contract(f"{E}::EcCurve.BatchDLOfDifferences")
